@@ -11,7 +11,7 @@ from vlib import cN, clist, cpair, log
 
 PID = "C10"
 PROPS = "C10_Props.v"
-TARGETS = ["C10_Props.vo", "C10_Check.vo", "C10_CacheProps.vo", "C10_Ctl_Props.vo", "gen/C10_SyncProg.vo"]
+TARGETS = ["C10_Props.vo", "C10_Check.vo", "C10_CacheProps.vo", "C10_Ctl_Props.vo", "gen/C10_SyncProg.vo", "gen/C10_ReplayFilter.vo"]
 HARNESS = ["control/common_test.go", "control/c10_test.go", "control/c10ctl_test.go", "control/c10conc_test.go"]
 
 BITMAPS = [0, 1, 2, 3, 5, 6, 1 << 31, 1 << 32, (1 << 31) | 1, 1 << 1023, (1 << 1023) | (1 << 32), 0xffffffff, 1 << 33]
@@ -341,6 +341,74 @@ def reload_overflow_case(n):
     return {"bitmaps": bm, "bitmaps2": bm, "max_cache_size": 0, "quiet": True, "ops": ops}
 
 
+def extract_replay_filter():
+    """Does ControlPlane.replayDnsReloadCache test or filter the pending snapshot before RestoreReloadCache?
+    By shape: between the nil guard and the RestoreReloadCache call nothing may read a Deadline, compare times,
+    range over or delete from the snapshot, and the snapshot itself must be the argument.  Returns (flag, why)."""
+    path = os.path.join(vlib.REPO, "control", "control_plane.go")
+    m = re.search(r"func \(c \*ControlPlane\) replayDnsReloadCache\(\) \{.*?\n\}\n", open(path).read(), re.S)
+    if not m:
+        return True, "func (c *ControlPlane) replayDnsReloadCache not found"
+    body = "\n".join(l.split("//")[0] for l in m.group(0).split("\n"))
+    call = re.search(r"RestoreReloadCache\(\s*([^,]+),", body)
+    if not call:
+        return True, "no RestoreReloadCache call in replayDnsReloadCache"
+    if call.group(1).strip() != "c.pendingDnsReloadCache":
+        return True, "RestoreReloadCache is not given c.pendingDnsReloadCache itself: " + call.group(1).strip()
+    before = body[:call.start()]
+    for pat, why in ((r"Deadline", "reads a Deadline"), (r"\.(After|Before|Sub|Compare)\(", "compares times"),
+                     (r"range\s+c\.pendingDnsReloadCache", "ranges over the snapshot"),
+                     (r"delete\(\s*c\.pendingDnsReloadCache", "deletes from the snapshot"),
+                     (r"c\.pendingDnsReloadCache\s*(\[[^\]]*\])?\s*=[^=]", "rewrites the snapshot")):
+        if re.search(pat, before):
+            return True, "replayDnsReloadCache %s before RestoreReloadCache" % why
+    return False, "snapshot handed to RestoreReloadCache unfiltered"
+
+
+def write_replay_filter(flag):
+    text = ("(* GENERATED by tools/c10.py from control/control_plane.go (func replayDnsReloadCache) - do not edit.\n"
+            "   true iff the pending reload snapshot is filtered / tested for expiry before RestoreReloadCache. *)\n"
+            "Definition replay_filters_expired : bool := %s.\n" % vlib.cbool(flag))
+    vlib.write_if_changed(os.path.join(vlib.COQ, "gen", "C10_ReplayFilter.v"), text)
+
+
+def gen_ctl_case3(rng):
+    """staged reload with controller reuse: entries past their TTL but not evicted (ttl 0; no lookup, no janitor
+    before the reload) sharing addresses with fresh ones; same rule set before and after"""
+    hosts = rng.sample(HOSTS, rng.randint(2, 4))
+    bitmaps = {}
+    for h in HOSTS:
+        fq = (h if h.endswith(".") else h + ".").lower()
+        bitmaps[fq] = "%x" % rng.choice(BITMAPS[1:])
+    addrs = rng.sample([a for a in ADDRS if a not in ("0.0.0.0", "::")], rng.randint(1, 3))
+    scopes = ["", "asis", "upstream@udp://1.1.1.1:53"]
+    ops, tag = [], 0
+
+    def ins(ttl):
+        nonlocal tag
+        tag += 1
+        return {"kind": "insert", "host": rng.choice(hosts), "qtype": rng.choice([1, 1, 28]), "scope": rng.choice(scopes),
+                "ips": [rng.choice(addrs) for _ in range(rng.choice([1, 2, 2, 3]))], "ttl": ttl, "tag": tag}
+    for _ in range(rng.randint(2, 6)):
+        ops.append(ins(rng.choice([0, 0, 300, 300, 60])))
+    ops.append({"kind": "reload_reuse"})
+    for _ in range(rng.randint(0, 5)):
+        r = rng.random()
+        if r < 0.4:
+            ops.append(ins(rng.choice([0, 300])))
+        elif r < 0.6:
+            src = rng.choice([o for o in ops if o["kind"] == "insert"])
+            ops.append({"kind": "remove", "host": src["host"], "qtype": src["qtype"], "scope": src["scope"]})
+        elif r < 0.7:
+            src = rng.choice([o for o in ops if o["kind"] == "insert"])
+            ops.append({"kind": "family", "host": src["host"], "qtype": src["qtype"]})
+        elif r < 0.85:
+            ops.append({"kind": "reload_reuse"})
+        else:
+            ops.append({"kind": "janitor", "at_sec": rng.choice([0, 1, 100])})
+    return {"bitmaps": bitmaps, "bitmaps2": bitmaps, "max_cache_size": 0, "ops": ops}
+
+
 def gen_ctl_case2(rng):
     """histories biased towards the glue: several scopes of one name sharing addresses, ttl 0 entries,
     lookups (expiry path), evictDnsRespCacheIfSame with current and stale pointers, optimistic cache,
@@ -403,8 +471,8 @@ def glue_case_to_coq(case, res, pool):
     the harness output predates the call recording.  Raises KeyError on a kernel key for no address."""
     cN = pool.n
     steps = res["steps"]
-    if case.get("quiet") or any("calls" not in st for st in steps):
-        return None
+    if case.get("quiet") or any("calls" not in st for st in steps) or any(op.get("kind") == "reload_reuse" for op in case["ops"]):
+        return None  # (controller reuse is outside ctl_op: C10_Reuse_Model.v; such histories get the impl-vs-spec check only)
     tab = {k: ip_int(s) for s, k in res["keys"].items()}
     base_ids, scope_ids, fqdn_ids = {}, {"": 0}, {"": 0}
 
@@ -787,11 +855,15 @@ def main(argv):
         # concurrency theorems: stated about the program extracted from the source (gen/C10_SyncProg.v); kept
         # apart so that a change of the locking shape does not trigger the widened searches of the other streams
         conc_ok, pinfo4 = vlib.proof_stage(out, "C10_Conc_Props.v", ["C10_Conc_Props.vo"])
+        reuse_ok, pinfo5 = vlib.proof_stage(out, "C10_Reuse_Props.v", ["C10_Reuse_Props.vo"])
+        pinfo4 = dict(pinfo4, reuse_ok=reuse_ok, reuse=pinfo5)
         proofs["res"] = (proof_ok, pinfo, pinfo2, pinfo3, conc_ok, pinfo4)
     bt = threading.Thread(target=_build)
     bt.start()
     sync_prog, sync_err = extract_sync_prog()
     write_sync_prog(sync_prog or [])
+    replay_filter, replay_why = extract_replay_filter()
+    write_replay_filter(replay_filter)
     vlib.coq_make(TARGETS)  # C10_Check.vo must exist before any case file is evaluated; failures are reported by the proof stage
     pt = threading.Thread(target=_proofs)
     pt.start()
@@ -804,7 +876,7 @@ def main(argv):
         return proofs["res"]
     try:
         bt.join()
-        return _main_rest(args, out, rng, n_cases, wait_proofs, sc, built.get("res", (None, "harness build thread died")), (sync_prog, sync_err))
+        return _main_rest(args, out, rng, n_cases, wait_proofs, sc, built.get("res", (None, "harness build thread died")), (sync_prog, sync_err, replay_filter, replay_why))
     finally:
         pt.join()
         sc_cm.__exit__(None, None, None)
@@ -813,7 +885,7 @@ def main(argv):
 def _main_rest(args, out, rng, n_cases, wait_proofs, sc, built, sync_info):
     import threading
     binary, blog = built
-    sync_prog, sync_err = sync_info
+    sync_prog, sync_err, replay_filter, replay_why = sync_info
     corpus, ctl_corpus, conc_corpus = [], [], []
     cdir = os.path.join(vlib.VERIF, "corpus", PID)
     if os.path.isdir(cdir):
@@ -826,6 +898,8 @@ def _main_rest(args, out, rng, n_cases, wait_proofs, sc, built, sync_info):
     ctl_cases += ctl_corpus + [gen_ctl_case2(rng) for _ in range(n_ctl2)]
     n_conc = 40 if args.tier == "quick" else 1000
     conc_cases = conc_corpus + [gen_conc_case(rng) for _ in range(n_conc)]
+    n_reuse = 40 if args.tier == "quick" else 1000
+    ctl_cases += [gen_ctl_case3(rng) for _ in range(n_reuse)]   # generated last: the earlier streams keep their cases
     conc_first = {}
 
     def _conc():
@@ -882,11 +956,12 @@ def _main_rest(args, out, rng, n_cases, wait_proofs, sc, built, sync_info):
                     all_err[s + i] = e
             sigs += sg
     proof_ok, pinfo, pinfo2, pinfo3, conc_ok, pinfo4 = wait_proofs()
-    cov = {"obligations": pinfo["obligations"] + pinfo2["obligations"] + pinfo3["obligations"] + pinfo4["obligations"],
-           "discharged": pinfo["discharged"] + pinfo2["discharged"] + pinfo3["discharged"] + pinfo4["discharged"],
+    reuse_ok, pinfo5 = pinfo4.get("reuse_ok", False), pinfo4.get("reuse", {"obligations": 0, "discharged": 0, "assumptions": [], "theorems": []})
+    cov = {"obligations": pinfo["obligations"] + pinfo2["obligations"] + pinfo3["obligations"] + pinfo4["obligations"] + pinfo5["obligations"],
+           "discharged": pinfo["discharged"] + pinfo2["discharged"] + pinfo3["discharged"] + pinfo4["discharged"] + pinfo5["discharged"],
            "checker_cmd": "cd /verif/coq && coq_makefile -f _CoqProject -o Makefile && make -j16 " + " ".join(TARGETS) + " && coqc -Q . Dae C10_Props.v / C10_CacheProps.v / C10_Ctl_Props.v / C10_Conc_Props.v (Print Assumptions captured)",
-           "theorems": pinfo.get("theorems", []) + pinfo2.get("theorems", []) + pinfo3.get("theorems", []) + pinfo4.get("theorems", []),
-           "print_assumptions": pinfo.get("assumptions", []) + pinfo2.get("assumptions", []) + pinfo3.get("assumptions", []) + pinfo4.get("assumptions", []),
+           "theorems": pinfo.get("theorems", []) + pinfo2.get("theorems", []) + pinfo3.get("theorems", []) + pinfo4.get("theorems", []) + pinfo5.get("theorems", []),
+           "print_assumptions": pinfo.get("assumptions", []) + pinfo2.get("assumptions", []) + pinfo3.get("assumptions", []) + pinfo4.get("assumptions", []) + pinfo5.get("assumptions", []),
            "trusted_base": vlib.TRUSTED_BASE_COMMON + [
                "verif-tagged observer in syncOwner (control/verif_hooks_on.go) reporting the computed batches; the stub build cannot write a real eBPF map",
                "Go maps modelled as total functions N -> option V; owner strings and 128-bit addresses numbered injectively by the orchestrator via the production key function",
@@ -966,6 +1041,7 @@ def _main_rest(args, out, rng, n_cases, wait_proofs, sc, built, sync_info):
             i, e = ctl_spec_fail[0]
             small = shrink_ctl(sc, binary, ctl_cases[i], codes=(2,)) if not any(c == 9 for (_, c, _) in e) else ctl_cases[i]
             out.violation("ctl_impl_vs_spec", {"case": small, "errors": e, "codes": GLUE_CODES,
+                                               "replayDnsReloadCache_shape": replay_why, "C10_ctl_mirror_reuse_closes": bool(pinfo4.get("reuse_ok")),
                                                "how": "feed case to TestVerifC10Ctl: after the failing step the kernel shadow map differs from the OR of the bitmaps of the live cache entries"},
                           "controller-level: kernel table differs from the live DNS cache after a cache operation (%d failing histories)" % len(ctl_spec_fail))
         elif ctl_tie_fail:
@@ -978,6 +1054,14 @@ def _main_rest(args, out, rng, n_cases, wait_proofs, sc, built, sync_info):
                     "searched": "%d controller histories (widened=%s) with no impl<>spec disagreement" % (len(ctl_cases), ctl_widened)}
             out.violation("ctl_glue_tie", what, "controller glue: implementation and model (or model and spec) disagree; no history found on which the kernel table differs from the live cache",
                           no_failing_input=True)
+        # ---- staged reload with controller reuse: the replay must hand the whole snapshot over ----
+        reuse_cov = {"replay_filters_expired": replay_filter, "shape": replay_why, "histories": n_reuse,
+                     "proof_closes": bool(reuse_ok)}
+        if (replay_filter or not reuse_ok) and not ctl_spec_fail and not ctl_err:
+            out.violation("reuse_tie", {"broken": "theorem C10_ctl_mirror_reuse does not close for replayDnsReloadCache as extracted: " + replay_why,
+                                        "proof": pinfo5.get("failed"),
+                                        "searched": "%d controller histories with no impl<>spec disagreement" % len(ctl_cases)},
+                          "staged reload with controller reuse: proof obligation no longer checks; no failing history found", no_failing_input=True)
         # ---- reload with more cached entries than the re-sync task queue holds ----
         ot.join()
         perrs, perr = probe["res"]
@@ -1059,7 +1143,7 @@ def _main_rest(args, out, rng, n_cases, wait_proofs, sc, built, sync_info):
                 out.violation("conc_tie", what, "concurrent syncOwner calls: proof obligation or model correspondence no longer checks; no failing schedule found",
                               no_failing_input=True)
         gsigs = set(CTL_SIGS)
-        cov_ctl = {"controller_histories": len(ctl_cases), "controller_failures": len(ctl_fail), "reload_overflow_probe": probe_cov, "concurrent_sync": conc_cov,
+        cov_ctl = {"controller_histories": len(ctl_cases), "controller_failures": len(ctl_fail), "reload_overflow_probe": probe_cov, "concurrent_sync": conc_cov, "reload_with_controller_reuse": reuse_cov,
                    "controller_glue": dict(CTL_STATS, distinct_signatures=len(gsigs),
                                            distinct_nontrivial=len(set(g for g in gsigs if int(g[0]) > 0 and int(g[1]) > 0 and int(g[3]) > 0)),
                                            rule="signature = (#operations issuing an update call, #operations issuing a remove call, #reloads, #steps with two live scopes of one base key sharing an address); non-trivial = update and remove calls and a shared scoped address",
